@@ -81,18 +81,18 @@ def special_cases(rng):
 
 
 def real_float(a):
-    return isinstance(a, (float, onp.floating)) or (isinstance(a, onp.ndarray) and a.dtype.kind == "f")
+    return isinstance(a, (float, onp.floating)) or (isinstance(a, onp.ndarray) and a.dtype.kind in "fc")
 
 
 def main():
     cfg = json.load(sys.stdin)
     rng = random.Random(cfg["seed"])
     tier = cfg.get("tier", "quick")
-    table = R.cases(rng, tier)
+    table = R.cases(rng, tier) + R.complex_cases(rng, tier)
     only = cfg.get("only")
     if tier != "thorough":
         frac = cfg.get("fraction", 0.35)
-        table = [c for c in table if rng.random() < frac]
+        table = [c for c in table if rng.random() < frac or c.tag.endswith(" complex")]
     table = special_cases(rng) + table
     out = {"n": 0, "keys": [], "bad": [], "dist": {}, "samples": []}
 
@@ -106,18 +106,25 @@ def main():
             continue
         shapes = [onp.shape(c.args[k]) for k in ks]
         sizes = [int(onp.prod(s)) if s else 1 for s in shapes]
-        z0 = onp.concatenate([onp.asarray(c.args[k], float).ravel() for k in ks]) if ks else onp.zeros(0)
+        cplx = [onp.iscomplexobj(c.args[k]) for k in ks]
+        # a complex argument is packed as its real part followed by its imaginary part
+        z0 = onp.concatenate([onp.concatenate([onp.real(onp.asarray(c.args[k])).ravel(), onp.imag(onp.asarray(c.args[k])).ravel()])
+                              if cx else onp.asarray(c.args[k], float).ravel() for k, cx in zip(ks, cplx)]) if ks else onp.zeros(0)
         if z0.size == 0 or z0.size > 40:
             continue
         pyfloat = [isinstance(c.args[k], float) for k in ks]
 
-        def F(m, z, c=c, ks=ks, shapes=shapes, sizes=sizes, pyfloat=pyfloat):
+        def F(m, z, c=c, ks=ks, shapes=shapes, sizes=sizes, pyfloat=pyfloat, cplx=cplx):
             a = list(c.args)
             off = 0
-            for k, s, n, pf in zip(ks, shapes, sizes, pyfloat):
+            for k, s, n, pf, cx in zip(ks, shapes, sizes, pyfloat, cplx):
                 piece = z[off] if s == () else m.reshape(z[off:off + n], s)
-                a[k] = piece
                 off += n
+                if cx:
+                    im = z[off] if s == () else m.reshape(z[off:off + n], s)
+                    off += n
+                    piece = piece + 1j * im
+                a[k] = piece
             y = c.f(m, *a)
             if isinstance(getattr(y, "_value", y), (tuple, list)):
                 y = m.concatenate([m.ravel(t) for t in y])
@@ -138,20 +145,26 @@ def main():
         # first order must be available, otherwise this is not a supported configuration
         try:
             g0 = onp.asarray(grad(lambda z: S["lin"](anp, z))(z0), float)
-            jv0 = onp.asarray(make_jvp(lambda z: F(anp, z))(z0)(v)[1], float)
         except LOUD:
             dist("first-order-unsupported")
             continue
         except Exception:
             dist("first-order-error")
             continue
-        if not (onp.all(onp.isfinite(g0)) and onp.all(onp.isfinite(jv0))):
+        try:
+            jv0 = onp.asarray(make_jvp(lambda z: F(anp, z))(z0)(v)[1], float)
+        except Exception:
+            jv0 = None                       # no forward rule: only the reverse-over-reverse sequence is available
+            dist("no-forward-rule")
+        if not onp.all(onp.isfinite(g0)) or (jv0 is not None and not onp.all(onp.isfinite(jv0))):
             continue
         out["n"] += 1
         out["keys"].append("%s|%s" % (c.prim, c.tag))
         if len(out["samples"]) < 3:
             out["samples"].append({"primitive": c.prim, "configuration": c.tag, "z0": z0.tolist()})
         for sname, Sm in S.items():
+            if sname == "fit" and jv0 is None:
+                continue
             s_ag = lambda z, Sm=Sm: Sm(anp, z)  # noqa: E731
             # ---- truth ----
             try:
